@@ -32,9 +32,13 @@ package archiver
 //@ func ProcessBody
 //@   property C10,C02
 //@   sweep idx slice div assert
-//@   attr proved to-eof
+//@   attr proved to-eof,closes,closes-range
 //@   opaque
-//@   modifies models.URL::*, eofs
+//@   modifies models.URL::*, eofs, closes
+//@   local spooled int = 0
+//@   after NewSpooledTempFile(?)#1: spooled = 1
+//@   ensures [closes-range] @C16 io.nCloses() >= old(io.nCloses()) + 1 && io.nCloses() <= old(io.nCloses()) + 2 // (what callers see of [closes]: the response body is closed exactly once, at most one more Close for the spool file)
+//@   ensures [closes] @C16 io.nCloses() == old(io.nCloses()) + 1 + ite(result != nil && spooled == 1, 1, 0) // C16: no response body or temporary file remains open (the response body is always closed; a spool file created for a body whose read then fails is closed as well)
 //@   ensures [to-eof] @C02 result == nil ==> io.nEOF() > old(io.nEOF()) // C02: ProcessBody reads the body to EOF on every branch so the wire capture is complete
 
 //@ pred statsReady() = stats.globalStats != nil && stats.globalStats.URLsCrawled != nil && stats.globalStats.MeanHTTPResponseTime != nil && stats.globalStats.MeanProcessBodyTime != nil && stats.globalStats.MeanWaitOnFeedbackTime != nil && stats.globalStats.HTTPReturnCodes != nil
@@ -47,7 +51,7 @@ package archiver
 //@   loop retry invariant [own-request] @C05 http.reqTarget(req) == http.reqTarget(old(item.url.request))
 //@   ensures [sent-own] @C05 http.lastSentTarget() == http.reqTarget(old(item.url.request)) // C05: the only request sent for a node is the one the preprocessor attached to it
 //@   loop retry invariant [bodies-closed] @C16 http.nOpened() - io.nCloses() == old(http.nOpened() - io.nCloses()) // C16: retry paths drain and close response bodies
-//@   ensures [one-body-left] @C16 http.nOpened() - io.nCloses() <= old(http.nOpened() - io.nCloses()) + 1 // C16: no response body ... remains open (at most the accepted response, handed to the post-processor which closes it)
+//@   ensures [one-body-left] @C16 http.nOpened() - io.nCloses() <= old(http.nOpened() - io.nCloses()) // C16: no response body remains open: every response handed out during the fetch has been closed when the fetch returns (the accepted one by ProcessBody once it is copied)
 //@   local waitedHost string = ""
 //@   local didWait int = 0
 //@   after Wait(globalBucketManager)#1: waitedHost = req.URL.Host; didWait = 1
@@ -55,6 +59,10 @@ package archiver
 //@   assert AdjustOnFailure(globalBucketManager)#1: [same-bucket] @C13 didWait == 1 ==> arg1 == waitedHost // C13: a 429-class / 5xx answer is reported to the bucket the request drew its token from
 //@   assert OnSuccess(globalBucketManager)#1: [same-bucket] @C13 didWait == 1 ==> arg1 == waitedHost // C13: success is reported to the same bucket
 //@   loop retry invariant [bucket-host] @C13 didWait == 1 ==> req.URL.Host == waitedHost
+//@   local gaveUp int = 0
+//@   after SetStatus(item)#1: gaveUp = 1
+//@   after SetStatus(item)#2: gaveUp = 1
+//@   ensures [giveup-closed] @C16 gaveUp == 1 ==> http.nOpened() - io.nCloses() == old(http.nOpened() - io.nCloses()) // C16: a fetch that gives up (request error or bad answers until the retries are used up) leaves no response body open
 //@   local fbWaited int = 0
 //@   after recv(feedbackChan)#1: fbWaited = 1
 //@   assert SetStatus(item)#4: [after-feedback] @C02 config.config.WARCWriteAsync || fbWaited == 1 // C02: with synchronous WARC writing the URL is marked archived only after the WARC writer signalled that the records are written
